@@ -517,7 +517,7 @@ def apply_op(obj, model, op, arg):
             # a model can only be replaced by an array with the same bonds: one side without a BondList is a mismatch
             src = obj[0].copy()
             if src.bonds is None:
-                src.bonds = struc.BondList(n)
+                src.bonds = BondList(n)
                 if n >= 2:
                     src.bonds.add_bond(0, 1, 1)
             else:
@@ -529,18 +529,50 @@ def apply_op(obj, model, op, arg):
             raise AssertionError("stack[0] = array with different bonds (one side has none) was accepted")
         # list of atoms -> array -> list of atoms is the identity, also for strings longer than the default widths
         atoms = [obj.get_atom(i) for i in range(n)]
-        atoms[k] = struc.Atom(atoms[k].coord, **{c: getattr(atoms[k], c) for c in obj.get_annotation_categories()})
+        atoms[k] = a.Atom(atoms[k].coord, **{c: getattr(atoms[k], c) for c in obj.get_annotation_categories()})
         atoms[k].chain_id, atoms[k].res_name, atoms[k].atom_name, atoms[k].element = "CHAIN5", "LONGRESN", "ATOMNAME7", "Xx1"
-        rebuilt = struc.array(atoms)
+        rebuilt = a.array(atoms)
         for i in range(n):
             for c in obj.get_annotation_categories():
                 if getattr(rebuilt.get_atom(i), c) != getattr(atoms[i], c):
                     raise AssertionError(f"array(atoms)[{i}].{c} = {getattr(rebuilt.get_atom(i), c)!r}, the atom had {getattr(atoms[i], c)!r}")
         return obj, model
+    if op == 12:                     # atoms with different categories refused by array(); NaN in float annotations of any width
+        if n == 0:
+            return obj, model
+        import biotite.structure as struc
+        k = arg % n
+        if arg % 2 == 0 and not is_stack:
+            cats = obj.get_annotation_categories()
+            atoms = [obj.get_atom(i) for i in range(n)]
+            more = a.Atom(atoms[k].coord, **{c: getattr(atoms[k], c) for c in cats}, extra_cat=1)
+            allmore = [a.Atom(a_.coord, **{c: getattr(a_, c) for c in cats}, extra_cat=1) for a_ in atoms]
+            for label, lst in (("an additional", atoms[:k] + [more] + atoms[k + 1:] + [more]), ("a missing", allmore + [atoms[k]]),
+                               ("an additional", atoms + [more])):
+                try:
+                    a.array(lst)
+                except ValueError:
+                    continue
+                raise AssertionError(f"array() accepted a list in which one atom has {label} annotation category")
+            return obj, model
+        for dt in (np.float32, np.float16, np.float64):
+            tmp = obj.copy()
+            vals = np.arange(n).astype(dt)
+            vals[k] = np.nan
+            tmp.set_annotation("fl", vals)
+            cp = tmp.copy()
+            if not (cp == tmp) or not tmp.equal_annotations(cp):
+                raise AssertionError(f"a copy is not equal to its original when a {dt.__name__} annotation holds NaN")
+            if not is_stack:
+                st = a.stack([tmp, cp])
+                st[1] = cp
+                if st.stack_depth() != 2:
+                    raise AssertionError("stack of an array and its copy")
+        return obj, model
     return obj, model
 
 
-NOPS = 12
+NOPS = 13
 
 
 def run_history(kind, with_bonds, with_box, ops):
